@@ -998,6 +998,13 @@ def h_conlin(case, env, vd):
 
 
 # --- aggregations ------------------------------------------------------------------------------------
+class _DoneType:
+    """Sentinel: the helper already ran its own comparison."""
+
+
+_Done = _DoneType()
+
+
 AGGS = ["IKS", "lower_bound_KS", "upper_bound_KS", "MAX", "SUM", "POS_SUM"]
 AGG_FUNCS = {"IKS": "aggregate_iks", "lower_bound_KS": "aggregate_lower_bound_ks", "upper_bound_KS": "aggregate_upper_bound_ks",
              "MAX": "aggregate_max", "SUM": "aggregate_sum_square", "POS_SUM": "aggregate_positive_sum_square"}
@@ -1045,15 +1052,12 @@ def agg_dual(method, g, idx, scale, rho, full_len):
 def compare_multi(fn, oracles, pts, env, vd):
     """``oracles(x)`` returns several admissible (D, label); the function must match one of them, the same at all points."""
     labels = None
-    try:
-        for x in pts:
-            try:
-                labels = [lab for _, lab in oracles(x)]
-                break
-            except Singular:
-                continue
-    except Exception:
-        raise
+    for x in pts:
+        try:
+            labels = [lab for _, lab in oracles(x)]
+            break
+        except Singular:
+            continue
     if labels is None:
         return
     stage = {"value-shape": 0, "value": 0, "jacobian-shape": 1, "jacobian": 1, "re-evaluation": 2}
@@ -1133,20 +1137,12 @@ def h_aggregate(case, env, vd):
     def oracles(x):
         return agg_dual(method, leaf_dual(gname, x), idx, scale, rho, mfull)
 
-    m, cls = LEAF_DIM[gname], leaf_class(gname)
-    sig = {"op": AGG_FUNCS[method], "operands": f"{cls};indices={'none' if idx is None else 'group'};scale={case['scale']}"}
+    sig = {"op": AGG_FUNCS[method], "operands": f"{leaf_class(gname)};indices={'none' if idx is None else 'group'};scale={case['scale']}"}
     what = f"{AGG_FUNCS[method]}({gname}, {kw})"
     if fn is not None and not vd.bad:
         compare_multi(fn, oracles, pts, env, vd)
         ks_bounds(fn, method, gname, idx, scale, pts, vd)
     return None if fn is None or vd.bad else _Done, oracles, pts, sig, what
-
-
-class _DoneType:
-    """Sentinel: the helper already ran its own comparison."""
-
-
-_Done = _DoneType()
 
 
 def h_discipline(case, env, vd):
